@@ -273,7 +273,7 @@ func report(rr *RunResult, verbose bool, keep string) int {
 					}
 					continue
 				}
-				if r.R.Status == "unsat" && !(r.O.Kind == "vacuity-post" && preUnsat(rr, r.O.Key)) {
+				if r.R.Status == "unsat" && (r.O.Kind != "vacuity-post" || postVacuous(rr, r)) {
 					canaryBad++
 					fails = append(fails, fmt.Sprintf("   VACUOUS %s (%s)", r.O.Key, r.O.Desc))
 				}
@@ -360,6 +360,42 @@ func main() {
 }
 
 // was the path already infeasible before the contract was applied? (then the post canary says nothing)
+// postVacuous decides whether an unsat answer to a "the assumptions after applying this contract are satisfiable" canary
+// is evidence that the CONTRACT made the path contradictory. A function with thousands of paths has infeasible ones (branch
+// combinations that exclude each other); on such a path the canary before the call may merely run out of time while the one
+// after it - with more facts to work with - is refuted, and which of the two happens depends on the machine's load. So a
+// single refuted instance counts only with positive evidence (the canary before the call on the same path was SATISFIABLE);
+// without it the call site counts when it is refuted on EVERY path that reaches it while not every path was already
+// contradictory before the call - the systematic case the guard exists for.
+func postVacuous(rr *RunResult, r *OblResult) bool {
+	postKey := r.O.Key
+	i := strings.LastIndex(postKey, "/post")
+	if i < 0 {
+		return true
+	}
+	pre := postKey[:i] + "/pre" + postKey[i+5:]
+	allPreUnsat, anyPre := true, false
+	for _, j := range rr.ByKey[pre] {
+		anyPre = true
+		st := rr.Results[j].R.Status
+		if st != "unsat" {
+			allPreUnsat = false
+		}
+		if st == "sat" && rr.Results[j].O.Path == r.O.Path {
+			return true
+		}
+	}
+	if anyPre && allPreUnsat {
+		return false
+	}
+	for _, j := range rr.ByKey[postKey] {
+		if rr.Results[j].R.Status != "unsat" {
+			return false
+		}
+	}
+	return true
+}
+
 func preUnsat(rr *RunResult, postKey string) bool {
 	i := strings.LastIndex(postKey, "/post")
 	if i < 0 {
